@@ -29,6 +29,8 @@ import tempfile
 VERIF = "/verif"
 OUT = os.path.join(VERIF, "benign")
 PROPS = ["C%02d" % i for i in range(1, 21)]
+if os.environ.get("RUN_PROPS"):  # restrict the checks that are run (quick re-runs after a rule change)
+    PROPS = [p for p in PROPS if p in os.environ["RUN_PROPS"].split(",")]
 
 
 def sh(cmd, cwd=None, env=None, timeout=900):
@@ -127,7 +129,7 @@ def main():
         n_inc += 1 if inc else 0
         lines.append("| {} | {} | {} |".format(name, al.replace("|", "\\|"), inc.replace("|", "\\|")))
     lines += ["", "{} refactorings; {} with an alarm, {} with an inconclusive check.".format(len(out), n_alarm, n_inc)]
-    open(os.path.join(OUT, "RESULTS.md"), "w").write("\n".join(lines) + "\n")
+    open(os.path.join(OUT, os.environ.get("RESULTS_OUT") or "RESULTS.md"), "w").write("\n".join(lines) + "\n")
     print("\n".join(lines))
 
 
